@@ -19,6 +19,17 @@ def evalPts : Handler := fun j => do
   let pts ← listOf (listOf int) (← field j "pts")
   return jList (jOpt jInt) (pts.map fun p => e.eval (envOfList p))
 
+/-- args: {"rs": [aexpr], "fuel": n} -> [aexpr] | null (out of fuel) -/
+def canonMapH : Handler := fun j => do
+  let rs ← listOf aexprOfJson (← field j "rs")
+  let fuel ← nat (← field j "fuel")
+  return jOpt (jList aexprToJson) (canonMap fuel rs)
+
+def flag (j : Json) (k : String) : Bool :=
+  match j.getObjVal? k with
+  | .ok (.bool b) => b
+  | _ => false
+
 /-! ### stride patterns -/
 
 def natBound (j : Json) : Except String Nat := do
@@ -113,6 +124,29 @@ def atEval : Handler := fun j => do
   let x ← listOf int (← field j "x")
   return exceptJson (jList jInt) (t.eval x)
 
+/-- args: {"a_shape": [nat], "b_shape": [nat]} -> {"ok": null} | {"raised"} -/
+def atPostInit : Handler := fun j => do
+  let a ← listOf nat (← field j "a_shape")
+  let b ← listOf nat (← field j "b_shape")
+  return exceptJson (fun _ => Json.null) (AT.postInit a b)
+
+/-- args: {"t", "ndim", "xs": [[int]], "k"} -> {"ok": [[int]]} | {"raised"} -/
+def atEvalNd : Handler := fun j => do
+  let t ← transOfJson (← field j "t")
+  wfT t
+  let ndim ← nat (← field j "ndim")
+  let xs ← listOf (listOf int) (← field j "xs")
+  let k ← nat (← field j "k")
+  return exceptJson (jList (jList jInt)) (t.evalNd ndim xs k)
+
+/-- args: {"s", "o", "fixed": bool} -> {"ok": bool} | {"raised"} -/
+def atEq : Handler := fun j => do
+  let s ← transOfJson (← field j "s")
+  let o ← transOfJson (← field j "o")
+  wfT s; wfT o
+  if flag j "fixed" then return Json.mkObj [("ok", Json.bool (s.eqFixed o))]
+  return exceptJson Json.bool (s.eqNp o)
+
 /-! ### attribute syntax -/
 open Syntax in
 def tokToJson : Tok → Json
@@ -194,10 +228,12 @@ def cfgToJson (c : Config) : Json :=
 
 /-- args: {"cfg", "mut"} -> {"toks", "parsed": config | null} -/
 def cfgSyntax : Handler := fun j => do
-  let toks := Syntax.printCfg (← cfgOfJson (← field j "cfg"))
+  let fixed := flag j "fixed"
+  let cfg ← cfgOfJson (← field j "cfg")
+  let toks := if fixed then Syntax.printCfgFixed cfg else Syntax.printCfg cfg
   let toks' ← mutateToks toks (← field j "mut")
   return Json.mkObj [("toks", jList tokToJson toks),
-    ("parsed", jOpt (fun p => cfgToJson p.1) (Syntax.parseCfg toks'))]
+    ("parsed", jOpt (fun p => cfgToJson p.1) (if fixed then Syntax.parseCfgFixed toks' else Syntax.parseCfg toks'))]
 
 def cfgParse : Handler := fun j => do
   let toks ← listOf tokOfJson (← field j "toks")
@@ -217,6 +253,7 @@ def apToJson (p : AP.Pattern) : Json :=
 def apErr : AP.Err → Json
   | .valueError => Json.mkObj [("raised", Json.str "ValueError")]
   | .typeError => Json.mkObj [("raised", Json.str "TypeError")]
+  | .indexError => Json.mkObj [("raised", Json.str "IndexError")]
 
 /-- args: {"cls", "bounds": [int|null], "t": transform, "dim": int}
  -> {"raised"} (constructor) | {"canon": pattern, "inner": pattern | {"raised"}} -/
@@ -225,22 +262,36 @@ def apHandler : Handler := fun j => do
     | "access" => pure AP.Cls.access | "schedule" => pure AP.Cls.schedule | "template" => pure AP.Cls.template
     | s => throw s!"bad class {s}"
   let bounds ← listOf (optOf int) (← field j "bounds")
-  let t ← transOfJson (← field j "t")
-  wfT t
   let dim ← int (← field j "dim")
-  match AP.construct cls bounds t with
+  let built ← match j.getObjVal? "map" with
+    | .ok m =>
+      if m.isNull then do
+        let t ← transOfJson (← field j "t")
+        wfT t
+        pure (AP.construct cls bounds t)
+      else do
+        let n ← nat (← field m "n")
+        let rs ← listOf aexprOfJson (← field m "rs")
+        pure (AP.constructFromMap cls bounds n rs)
+    | .error _ => do
+      let t ← transOfJson (← field j "t")
+      wfT t
+      pure (AP.construct cls bounds t)
+  match built with
   | .error e => return apErr e
   | .ok p =>
     let inner := match p.innerDims dim with
       | .ok q => apToJson q
       | .error e => apErr e
-    return Json.mkObj [("canon", apToJson p.canonicalize), ("inner", inner)]
+    let canon := if flag j "fixed" then p.canonicalizeFixed else p.canonicalize
+    return Json.mkObj [("built", apToJson p), ("canon", apToJson canon), ("inner", inner)]
 
 def handlers : List (String × Handler) :=
   [("c19.canon", canon), ("c19.eval", evalPts), ("c19.sp_canon", spCanon), ("c19.pack", pack),
    ("c19.at_tomap", atToMap), ("c19.at_frommap", atFromMap), ("c19.at_compose", atCompose),
    ("c19.at_compose_eval", atComposeEval), ("c19.at_eval", atEval), ("c19.sp_syntax", spSyntax),
    ("c19.sp_parse", spParse), ("c19.cfg_syntax", cfgSyntax), ("c19.cfg_parse", cfgParse),
-   ("c19.opt_table", optTable), ("c19.ap", apHandler)]
+   ("c19.opt_table", optTable), ("c19.ap", apHandler), ("c19.canon_map", canonMapH),
+   ("c19.at_postinit", atPostInit), ("c19.at_evalnd", atEvalNd), ("c19.at_eq", atEq)]
 
 end SnaxVerif.Drv.C19
